@@ -140,7 +140,8 @@ def gen_run(seed, goods, bads, texts):
         # where the generator's warnings go: a sink that accepts everything, or a full disk (every write fails with ENOSPC)
         env["stderr"] = rng.pick(["devnull", "devfull"])
     heap = [0, 0] if rng.chance(1, 2) else [rng.below(200), 16 + rng.below(4000)]
-    n = 1 + rng.below(7)
+    # most processes expand a handful of derives; one in twenty-five is a long-lived proc-macro server
+    n = 12 + rng.below(30) if rng.chance(1, 25) else 1 + rng.below(7)
     steps = []
     for i in range(n):
         if steps and rng.chance(1, 4):
@@ -543,7 +544,7 @@ def run(tier, seed):
     coverage = {
         "evaluations": evaluations + n_var_runs * len(bins),
         "distinct_nontrivial": len(distinct),
-        "rule": ("clause 1: one evaluation = one simulated run = a fresh generator process (ASLR off, envshim preloaded) executing a seeded history of 1-7 expansions "
+        "rule": ("clause 1: one evaluation = one simulated run = a fresh generator process (ASLR off, envshim preloaded) executing a seeded history of 1-7 expansions (one run in 25: 12-41 expansions) "
                  "(grammar from an 11-grammar corpus, one of 5 ill-formed grammars, or a grammar program drawn from the seed by vlib/gramgen.py, one of %d option sets, file or inline source, include_grammar, calling thread) under a seeded "
                  "environment vector (hash seed, clock, environment size, manifest root, cwd, short reads / EINTR on the grammar file, heap ballast); every expansion is compared "
                  "with the same expansion alone in a fresh neutral process. distinct_nontrivial = distinct (expansion key, environment class, history prefix, thread) tuples. "
